@@ -501,6 +501,13 @@ func checkC10(tier string) {
 		// were type-checked), which also holds the call to rename; a call in a.go is still undefined
 		fs = append(fs, fscn{"conflict-and-syntax-error-in-a-test-file", pkgFiles{"a.go": "package m\n\n" + types + "func use0() bool { return deriveEqual(&T1{}, &T1{}) }\n", "b_test.go": "package m\n\nfunc useT() bool { return deriveEqual(&T2{}, &T2{}) }\n" + syn}})
 		fs = append(fs, fscn{"duplicate-and-syntax-error-in-a-test-file", pkgFiles{"a.go": "package m\n\n" + types + "func use0() bool { return deriveEqualA(&T1{}, &T1{}) }\n", "b_test.go": "package m\n\nfunc useT() bool { return deriveEqualB(&T1{}, &T1{}) }\n" + syn}})
+		// a clashing call whose callee is parenthesised (goderive does not take it for a derive call:
+		// nothing to rename, the file stays as it is), next to ordinary clashing calls
+		for _, nm := range []string{"a.go", "main.go"} {
+			fs = append(fs, fscn{"parenthesised-callee-in-conflict|" + nm, pkgFiles{nm: "package m\n\n" + types + "func use0() bool { return deriveEqual(&T1{}, &T1{}) && (deriveEqual)(&T2{}, &T2{}) }\n"}})
+			fs = append(fs, fscn{"parenthesised-callee-in-duplicate|" + nm, pkgFiles{nm: "package m\n\n" + types + "func use0() bool { return deriveEqualA(&T1{}, &T1{}) && (deriveEqualB)(&T1{}, &T1{}) }\n"}})
+			fs = append(fs, fscn{"parenthesised-callee-next-to-conflict|" + nm, pkgFiles{nm: "package m\n\n" + types + "func use0() bool {\n\treturn deriveEqual(&T1{}, &T1{}) && deriveEqual(&T2{}, &T2{}) && (deriveEqual)(&T2{}, &T2{}) // kept as written\n}\n"}})
+		}
 		flagSets := [][]string{{"-autoname"}, {"-dedup"}, {"-autoname", "-dedup"}}
 		parDo(len(fs)*len(flagSets)*2, func(i int) {
 			sc, flags, pregen := fs[i/(len(flagSets)*2)], flagSets[(i/2)%len(flagSets)], i%2 == 1
